@@ -66,7 +66,7 @@ structure Instr where
   len : Nat
   pops : Nat
   pushes : Nat
-  deriving Repr
+  deriving DecidableEq, Repr
 
 /-- `OP_FUNC`: `bool` flag, then label (and file name), then the parameter count -/
 def funcOperandBytes (flag : Nat) : Nat :=
@@ -188,11 +188,18 @@ def refsOk (p : Program) (pc : Nat) : Bool :=
       else operandsRefOk p (pc + 1 + sizeof_bool) [.name, .name]
     | _ => operandsRefOk p (pc + 1) (vmOp i.op).operands
 
-/-! ## instruction boundaries: the linear sweep from offset 0 -/
+/-! ## instruction boundaries
 
-/-- offsets of the instructions met when the buffer is decoded front to back (the emitter writes it front
-to back; the zero bytes behind the last instruction decode as `OP_DONE`); `none` if some position does not
-decode.  `fuel` bounds the number of instructions. -/
+The code reachable from the entries must decode in exactly one way: no reachable instruction may start
+strictly inside another reachable instruction.  (The whole buffer need not decode front to back: behind
+the final `OP_DONE` the emitter leaves the tail of instructions its peephole absorbed - `1 || 9223372036854775807`
+ends in `OP_BOOL_STORE_TRUE` followed by eight stale literal bytes - and that tail is unreachable.) -/
+
+/-- `pc` lies strictly inside the instruction that starts at `q` -/
+def insideInstr (p : Program) (q pc : Nat) : Prop := ∃ i, decode p q = some i ∧ q < pc ∧ pc < q + i.len
+
+/-- diagnostics only: offsets of the instructions met when the buffer is decoded front to back, `none` if
+some position does not decode (stale bytes behind the last instruction) -/
 def sweepFrom (p : Program) : Nat → Nat → Option (List Nat)
   | 0, pc => if pc = p.size then some [] else none
   | fuel + 1, pc =>
@@ -203,9 +210,6 @@ def sweepFrom (p : Program) : Nat → Nat → Option (List Nat)
 
 def boundaries (p : Program) : Option (List Nat) := sweepFrom p p.size 0
 
-/-- `pc` is the first byte of an instruction of the linear decoding of the whole buffer -/
-def onBoundary (p : Program) (pc : Nat) : Prop := ∃ l, boundaries p = some l ∧ pc ∈ l
-
 /-! ## the checker -/
 
 abbrev Ann := Array (Option (Nat × Option Nat))
@@ -214,16 +218,19 @@ def Ann.at (H : Ann) (pc : Nat) : Option (Nat × Option Nat) := (H[pc]?).join
 
 def Ann.holds (H : Ann) (s : St) : Bool := H.at s.pc == some (s.h, s.mark)
 
-def markAll (l : List Nat) (n : Nat) : Array Bool :=
-  l.foldl (fun a i => a.setIfInBounds i true) (Array.replicate n false)
+/-- no annotated offset strictly inside the instruction at `pc` -/
+def interiorFree (p : Program) (H : Ann) (pc : Nat) : Bool :=
+  match decode p pc with
+  | none => false
+  | some i => (List.range (i.len - 1)).all (fun k => (H.at (pc + 1 + k)).isNone)
 
 /-- the local condition at one annotated offset -/
-def checkAt (p : Program) (H : Ann) (B : Array Bool) (pc : Nat) : Bool :=
+def checkAt (p : Program) (H : Ann) (pc : Nat) : Bool :=
   match H.at pc with
   | none => true
   | some (h, m) =>
     let s : St := ⟨pc, h, m⟩
-    B.getD pc false
+    interiorFree p H pc
       && decide (h + 1 ≤ p.declared)
       && refsOk p pc
       && (match endHeight p s with | none => true | some k => k == 0)
@@ -231,9 +238,8 @@ def checkAt (p : Program) (H : Ann) (B : Array Bool) (pc : Nat) : Bool :=
           | none => false
           | some l => l.all (fun s' => decide (s'.pc < p.size) && H.holds s'))
 
-def catchOk (p : Program) (B : Array Bool) (c : CatchBlock) : Bool :=
-  decide (c.tryStart ≤ c.tryEnd) && decide (c.tryEnd ≤ p.size) && B.getD c.tryStart false
-    && (B.getD c.tryEnd false || c.tryEnd == p.size)
+def catchOk (p : Program) (c : CatchBlock) : Bool :=
+  decide (c.tryStart ≤ c.tryEnd) && decide (c.tryEnd ≤ p.size)
 
 /-- the stack the emitter declares: `internal max + 9 * external max + 1` (`ProgramScript::Load`), recomputed
 from the annotation: heights after internal instructions, heights before external ones -/
@@ -247,15 +253,11 @@ def marginOk (p : Program) (H : Ann) : Bool :=
   decide (r.1 + 9 * r.2 + 1 ≤ p.declared)
 
 def check (p : Program) (H : Ann) : Bool :=
-  match boundaries p with
-  | none => false
-  | some bl =>
-    let B := markAll bl p.size
-    decide (H.size = p.size)
-      && p.entries.all (fun e => decide (e < p.size) && H.holds (St.start e))
-      && (List.range p.size).all (checkAt p H B)
-      && p.catches.all (catchOk p B)
-      && marginOk p H
+  decide (H.size = p.size)
+    && p.entries.all (fun e => decide (e < p.size) && H.holds (St.start e))
+    && (List.range p.size).all (checkAt p H)
+    && p.catches.all (catchOk p)
+    && marginOk p H
 
 /-- work-list inference of the annotation: first height seen wins (a second, different height at the same
 offset is left for `check` to refuse) -/
@@ -299,7 +301,6 @@ end AbsVM
 
 /-- what `C02_verifier_sound` promises about every reachable state -/
 structure Safe (p : Program) (s : St) : Prop where
-  boundary : onBoundary p s.pc
   inside : s.pc < p.size
   executable : (step p s).isSome = true
   decodes_inside : ∀ i, decode p s.pc = some i → s.pc + i.len ≤ p.size
